@@ -25,6 +25,16 @@ CHECKS = {
               "{dr,rd,rr} x auto/cross, all autocorrelation combinations, NaN entries."),
         ref="5.C04", technique="Lean 4 theorems over translator-generated kernels + differential correspondence",
         note="sqrt/division correctly rounded (IEEE); np.nansum skips NaN; glue pinned by AST fingerprint"),
+    "C10": dict(
+        text=("Theorems (all edge arrays, both closed sides, every rational redshift incl. exact edge values): the "
+              "tree bin assignment built from the generated np.digitize arguments and keep-range equals the closed-side "
+              "membership rule (binIndex_spec), objects outside contribute nowhere (binIndex_none), the redshift "
+              "histogram built from the generated mask/mirroring flags obeys the same rule (hist_rule; false before "
+              "the repair of F10) and therefore trees and histograms agree (consumers_agree). digitize/histogram are "
+              "modelled as numpy documents them; the model is tied to BinnedTrees, HistData.from_catalog and the "
+              "sum_weights of a measurement by differential testing with redshifts drawn from the edge set."),
+        ref="5.C10", technique="Lean 4 theorems over translator-generated digitize/histogram arguments + differential correspondence",
+        note="np.digitize / np.histogram semantics modelled (searchsorted rule, last bin closed); float == on identical binary64 values"),
     "C17": dict(
         text=("Theorems about a Lean container model (counts B×N×N, weight sums, binning): addition adds counts and is "
               "rejected exactly when binning (edges or closed side) or patch number differ; scalar multiplication "
